@@ -37,10 +37,13 @@ func transformReqs(
 	newReqs := make(map[string]project.RequirementConfig)
 
 	// A path can occur more than once in newVersions: the old project may name one project under several names with
-	// different versions, and the build list takes the highest of them. Every name of the path gets that version,
-	// whatever the order of the entries.
+	// different versions, and an edit may hand those entries back as they were. A name whose own version is among the
+	// versions returned for its path keeps it (a lower entry can be what brings some other project into the build
+	// list); any other name of the path gets the highest version returned for it, whatever the order of the entries.
+	returned := make(map[module.Version]bool)
 	highest := make(map[string]string)
 	for _, v := range newVersions {
+		returned[v] = true
 		if cur, ok := highest[v.Path]; !ok || semver.Compare(cur, v.Version) < 0 {
 			highest[v.Path] = v.Version
 		}
@@ -55,9 +58,12 @@ func transformReqs(
 		if !ok {
 			continue
 		}
-		v.Version = highest[v.Path]
 		for _, n := range names {
-			newReqs[n] = versionRequirement(v)
+			if old := requirementVersion(root.Requirements[n]); returned[old] {
+				newReqs[n] = versionRequirement(old)
+			} else {
+				newReqs[n] = versionRequirement(module.Version{Path: v.Path, Version: highest[v.Path]})
+			}
 		}
 	}
 
